@@ -159,6 +159,7 @@ def r2_inplace_api(ctx):
 
 def r3_no_shared_mutable_state(ctx):
     _fresh_arrays(ctx)
+    _setters_rebind(ctx)
     prog, implemented = getattr(ctx, "_c07", None) or build(ctx)
     writers = _mutable_classes(prog)
     mutable = {}
@@ -234,6 +235,28 @@ INPLACE_DUNDERS = ("__iadd__", "__isub__", "__imul__", "__itruediv__", "__ifloor
                    "__ilshift__", "__irshift__")
 VALUE_CLASSES = (("src/scinumtools/units/fraction.py", "Fraction"), ("src/scinumtools/units/magnitude.py", "Magnitude"), ("src/scinumtools/units/dimensions.py", "Dimensions"),
                  ("src/scinumtools/units/base_units.py", "BaseUnits"), ("src/scinumtools/units/quantity.py", "Quantity"))
+
+
+def _setters_rebind(ctx):
+    """The in-place methods replace a field by a new object (`self.error = ...`).  Writing *into* the object the field
+    refers to (`self.error[...] = x`, `self.value[i] = x`) changes every quantity that shares that array - a result that
+    took its uncertainties over from an operand, a slice."""
+    n = 0
+    for rel, cname in (("src/scinumtools/units/magnitude.py", "Magnitude"), ("src/scinumtools/units/quantity.py", "Quantity")):
+        c = ctx.repo.cls(rel, cname)
+        for mname, fn in methods(c).items():
+            me = fn.args.args[0].arg if fn.args.args else "self"
+            for a in ast.walk(fn):
+                if isinstance(a, ast.Subscript) and isinstance(a.ctx, (ast.Store, ast.Del)):
+                    base = a.value
+                    while isinstance(base, (ast.Attribute, ast.Subscript)):
+                        if isinstance(base, ast.Attribute) and isinstance(base.value, ast.Name) and base.value.id == me:
+                            n += 1
+                            ctx.violated(rel, f"{cname}.{mname}", "fields are replaced, never written into (their arrays may be shared with other quantities)",
+                                         detail=f"{norm(a)} = ...", expected=f"{norm(base)} = <new object>")
+                            break
+                        base = base.value
+    ctx.holds("-", "-", "scan of Magnitude/Quantity methods for writes into a field's array completed")
 
 
 def _fresh_arrays(ctx):
